@@ -97,7 +97,32 @@ func (g *Gen) litText() string {
 	}
 }
 
+// param returns a parameter expansion, sometimes with an escaped newline
+// (a line continuation, legal anywhere outside quotes) placed right after
+// "${", after the name or operator, or before the closing brace: these are
+// the places where a line-boundary cut leaves the lexer in its
+// rune-by-rune state.
 func (g *Gen) param() string {
+	s := g.param0()
+	if !strings.HasPrefix(s, "${") || !g.r.Chance(1, 6) {
+		return s
+	}
+	cands := []int{2, len(s) - 1}
+	if i := strings.IndexAny(s[2:], "@:#%/^,-+=?["); i >= 0 {
+		cands = append(cands, 2+i, 2+i+1)
+	}
+	k := kit.Pick(g.r, cands)
+	if k < 2 || k > len(s)-1 {
+		return s
+	}
+	nl := "\\\n"
+	if g.r.Chance(1, 8) {
+		nl = "\\\r\n"
+	}
+	return s[:k] + nl + s[k:]
+}
+
+func (g *Gen) param0() string {
 	n := g.name()
 	if g.r.Chance(1, 4) {
 		n = kit.Pick(g.r, []string{"1", "@", "*", "#", "?", "$", "!", "-", "0", "10"})
